@@ -53,6 +53,7 @@ def run(rep: core.Report):
     _r14g(rep)
     _r14h(rep)
     _r14i(rep)
+    _r14l(rep)
     from rules import shared_bcast
 
     shared_bcast.run(rep, "R14k", [r for r in ["phonopy/phonon/band_structure.py", "phonopy/phonon/mesh.py", "phonopy/phonon/qpoints.py", "phonopy/phonon/degeneracy.py"] if (core.REPO / r).is_file()])
@@ -756,6 +757,48 @@ def _r14i(rep):
         raise AnalysisError(f"R14i: only {n_inst} eigenvector writer sites found (6 confirmed by reading)")
 
 
+
+def _r14l(rep):
+    """One notion of 'zone centre': the q-point list and the dynamical-matrix object agree on which q get the NAC direction."""
+    QP = "phonopy/phonon/qpoints.py"
+    DMF = "phonopy/harmonic/dynamical_matrix.py"
+    rep.rule("R14l", "zone-centre test of the q-point list: the test that decides whether nac_q_direction is handed to DynamicalMatrixNAC.run treats at least every q with |q| below DynamicalMatrixNAC.Q_DIRECTION_TOLERANCE as the zone centre -- otherwise run(q) without a direction classifies the point as Gamma itself and drops the non-analytical term, while the OpenMP branch, the band path and a direct call keep it", 1)
+    cls = core.find_def(DMF, "DynamicalMatrixNAC")
+    tol = [st.value.value for st in cls.body if isinstance(st, ast.Assign) and core.src(st.targets[0]) == "Q_DIRECTION_TOLERANCE" and isinstance(st.value, ast.Constant)]
+    if len(tol) != 1:
+        raise AnalysisError("DynamicalMatrixNAC.Q_DIRECTION_TOLERANCE is no longer a literal")
+    fn = core.find_def(QP, "QpointsPhonon._get_dynamical_matrix")
+    sites = []
+    for node in ast.walk(fn):
+        if isinstance(node, ast.If) and any(isinstance(c, ast.Call) and core.src(c.func).endswith(".run") and any(k.arg == "q_direction" for k in c.keywords) for st in node.body for c in ast.walk(st)):
+            sites.append(node)
+    if len(sites) != 1:
+        raise AnalysisError(f"QpointsPhonon._get_dynamical_matrix: {len(sites)} branches hand a q_direction to run(), 1 expected")
+    test = sites[0].test
+    conj = test.values if isinstance(test, ast.BoolOp) and isinstance(test.op, ast.And) else [test]
+    width = None
+    shown = None
+    for c in conj:
+        t = core.src(c).replace(" ", "")
+        m = re.fullmatch(r"\(np\.abs\((\w+)\)<([^)]+)\)\.all\(\)", t)
+        if m:
+            shown = core.src(c)
+            rhs = m.group(2)
+            width = tol[0] if rhs.endswith("Q_DIRECTION_TOLERANCE") else (float(rhs) if re.fullmatch(r"[0-9.eE+-]+", rhs) else None)
+        elif isinstance(c, ast.Call) and core.src(c.func) in ("np.allclose", "np.isclose") and len(c.args) >= 2 and core.src(c.args[1]) in ("0", "0.0"):
+            shown = core.src(c)
+            at = [k.value for k in c.keywords if k.arg == "atol"]
+            width = float(at[0].value) if at and isinstance(at[0], ast.Constant) else (1e-8 if not at else None)
+        elif isinstance(c, ast.Compare) and "np.linalg.norm" in t and len(c.comparators) == 1 and isinstance(c.ops[0], (ast.Lt, ast.LtE)):
+            shown = core.src(c)
+            r = core.src(c.comparators[0])
+            width = tol[0] if r.endswith("Q_DIRECTION_TOLERANCE") else (float(r) if re.fullmatch(r"[0-9.eE+-]+", r) else None)
+    if shown is None:
+        raise AnalysisError(f"QpointsPhonon._get_dynamical_matrix: no zone-centre test recognised in '{core.norm(core.src(test), 80)}'")
+    rep.instance("R14l", QP, "QpointsPhonon._get_dynamical_matrix", f"{shown}: window {width} vs Q_DIRECTION_TOLERANCE {tol[0]}", width is not None and width >= tol[0] * (1 - 1e-12),
+                 f"the q-point list hands the NAC direction to run() only for |q| below {width}, but run(q) without a direction treats every |q| < {tol[0]} as the zone centre and leaves the non-analytical term out: a q-point in between (2e-7 from a text file) loses the LO-TO splitting on this path and keeps it on the OpenMP, band-path and direct routes", line=sites[0].lineno)
+
+
 def selftest():
     V = []
     b = lambda name, file, old, new, rule, expect="", **kw: V.append(dict(name=name, kind="break", file=file, old=old, new=new, rule=rule, expect=expect, **kw))
@@ -779,4 +822,6 @@ def selftest():
     b("mesh.yaml holds conjugated eigenvectors", "phonopy/phonon/mesh.py", "                                    self._eigenvectors[i, k * 3 + ll, j].imag,", "                                    self._eigenvectors[i, k * 3 + ll, j].conj().imag,", "R14i", "write_yaml")
     b("qpoints.yaml swaps band and row index", "phonopy/phonon/qpoints.py", "                                    self._eigenvectors[i][k * 3 + ll, j].real,", "                                    self._eigenvectors[i][j, k * 3 + ll].real,", "R14i", "element")
     b("run_mesh drops with_eigenvectors on the way to init_mesh", "phonopy/api_phonopy.py", "            with_eigenvectors=with_eigenvectors,\n            with_group_velocities=with_group_velocities,\n            is_gamma_center=is_gamma_center,\n        )\n        self._mesh.run()", "            with_group_velocities=with_group_velocities,\n            is_gamma_center=is_gamma_center,\n        )\n        self._mesh.run()", "R14j", "with_eigenvectors")
+    b("q-point list tests the zone centre with np.allclose", "phonopy/phonon/qpoints.py", "            and (np.abs(q) < 1e-5).all()", "            and np.allclose(q, 0)", "R14l", "window")
+    n("q-point list tests the zone centre with the class constant", "phonopy/phonon/qpoints.py", "            and (np.abs(q) < 1e-5).all()", "            and (np.abs(q) < DynamicalMatrixNAC.Q_DIRECTION_TOLERANCE).all()")
     return V
